@@ -143,6 +143,7 @@ class Prop:
             out.bad("not-delivered", "%s: root recorder saw %r (terminal %r), expected on_error(InjectedFault)" % (desc, rec.kinds(), term and term[2:]))
             return out
         out.probes["delivered"] += 1
+        out.probes["delivered:" + [n["op"] for n in _all_nodes(sc["program"]) if n["id"] == nid][0]] += 1
         late = [c for c in w.calls if c[0] > fseq and c[1] > ft]
         if late:
             out.bad("callback-after-failure", "%s: callback %s ran at t=%s after the failure at t=%s" % (desc, late[0][2], late[0][1], ft))
@@ -155,6 +156,13 @@ class Prop:
         return out
 
     signature = staticmethod(pipe.signature)
+
+
+def _all_nodes(node):
+    if isinstance(node, dict):
+        yield node
+        for x in node["in"]:
+            yield from _all_nodes(x)
 
 
 def _path_to(node, nid):
